@@ -309,6 +309,9 @@ func r14Writer(c *RuleCtx) {
 			other++
 		}
 	}
+	if other == 1 && len(writes) == 0 && r14AppendWriter(c, fn) {
+		return
+	}
 	if other > 0 || len(writes) == 0 {
 		c.undecided("writer/idiom", c.fpos(fn), "persistFooter writes its fields with binary.Write(w, binary.BigEndian, x)", fmt.Sprintf("%d other Write calls, %d binary.Write calls: the footer writer uses an idiom this rule does not read", other, len(writes)))
 		return
@@ -1784,4 +1787,162 @@ func failsWhenErrIs(p *Program, at ssa.Instruction, e ssa.Value, sentinel *ssa.G
 	}
 	walk(blk, nil, nil, st, idx, 0)
 	return found
+}
+
+// r14AppendWriter: the footer assembled in one buffer and written once —
+//
+//	buf = binary.BigEndian.AppendUint64(buf, numDocs) … buf = binary.BigEndian.AppendUint32(buf, Version)
+//	crc := crc32.Update(crcBeforeFooter, crc32.IEEETable, buf)
+//	buf = binary.BigEndian.AppendUint32(buf, crc); _, err := w.Write(buf); return err
+//
+// The chain of appends is read back from the argument of the single Write: order, widths, roles; the CRC
+// is crc32.Update seeded with the body-CRC parameter over exactly the bytes appended before it; the buffer
+// starts empty; the Write goes to the writer parameter and its error is what is returned.
+func r14AppendWriter(c *RuleCtx, fn *ssa.Function) bool {
+	var wcall ssa.CallInstruction
+	for _, cs := range callSites(fn) {
+		name := ""
+		if f := staticCallee(cs); f != nil {
+			name = f.Name()
+		} else if cs.Common().IsInvoke() {
+			name = cs.Common().Method.Name()
+		}
+		if name == "Write" {
+			wcall = cs
+		}
+	}
+	if wcall == nil {
+		return false
+	}
+	args := wcall.Common().Args
+	if len(args) == 0 {
+		return false
+	}
+	data := args[len(args)-1]
+	type item struct {
+		val   ssa.Value
+		width int
+		prev  ssa.Value
+	}
+	var rev []item
+	cur := data
+	for i := 0; i < 32; i++ {
+		call, ok := root(cur).(*ssa.Call)
+		if !ok {
+			break
+		}
+		f := call.Call.StaticCallee()
+		if f == nil {
+			break
+		}
+		w := 0
+		switch f.String() {
+		case "(encoding/binary.bigEndian).AppendUint64":
+			w = 8
+		case "(encoding/binary.bigEndian).AppendUint32":
+			w = 4
+		case "(encoding/binary.bigEndian).AppendUint16":
+			w = 2
+		}
+		if w == 0 || len(call.Call.Args) != 3 {
+			break
+		}
+		rev = append(rev, item{call.Call.Args[2], w, call.Call.Args[1]})
+		cur = call.Call.Args[1]
+	}
+	if len(rev) == 0 {
+		return false
+	}
+	// the buffer starts empty
+	startsEmpty := false
+	switch x := root(cur).(type) {
+	case *ssa.Slice:
+		if h, ok := constInt64(x.High); ok && h == 0 {
+			startsEmpty = true
+		}
+	case *ssa.MakeSlice:
+		if k, ok := constInt64(x.Len); ok && k == 0 {
+			startsEmpty = true
+		}
+	case *ssa.Const:
+		startsEmpty = x.IsNil()
+	}
+	var got, details []string
+	okAll := len(rev) == len(v16WriterOrder) && startsEmpty
+	if !startsEmpty {
+		details = append(details, "the buffer the fields are appended to does not start empty")
+	}
+	seeded := false
+	for i := len(rev) - 1; i >= 0; i-- {
+		it := rev[i]
+		v := it.val
+		role := "?"
+		if pr, ok := paramRole(v); ok {
+			role = pr
+		}
+		switch x := v.(type) {
+		case *ssa.Const:
+			if k, ok := constUint64(x); ok {
+				if ver, ok2 := c.p.ZapTypes.Scope().Lookup("Version").(*types.Const); ok2 && ver.Val().String() == fmt.Sprint(k) {
+					role = "version"
+				} else {
+					role = fmt.Sprintf("const %d", k)
+				}
+			}
+		case *ssa.Call:
+			if f := x.Call.StaticCallee(); f != nil && f.String() == "hash/crc32.Update" && len(x.Call.Args) == 3 {
+				role = "crc read too early"
+				if sameValue(x.Call.Args[2], it.prev) {
+					role = "crc"
+				}
+				if _, isParam := paramRole(x.Call.Args[0]); isParam && widthOf(x.Call.Args[0].Type()) == 4 {
+					seeded = true
+				}
+			}
+		}
+		n := len(rev) - 1 - i
+		got = append(got, fmt.Sprintf("%s:u%d", role, it.width*8))
+		if n < len(v16WriterOrder) {
+			want := v16WriterOrder[n]
+			wantW := 8
+			if want == "chunkMode" || want == "version" || want == "crc" {
+				wantW = 4
+			}
+			if role != want || it.width != wantW || widthOf(v.Type()) != wantW {
+				okAll = false
+				details = append(details, fmt.Sprintf("field #%d: got %s u%d, want %s u%d", n+1, role, it.width*8, want, wantW*8))
+			}
+		}
+	}
+	// destination: the writer parameter; the error of the Write is what is returned
+	dstOK := false
+	if wcall.Common().IsInvoke() {
+		_, dstOK = root(wcall.Common().Value).(*ssa.Parameter)
+	} else if len(args) > 0 {
+		_, dstOK = root(args[0]).(*ssa.Parameter)
+	}
+	errOK := true
+	if ev := errValueOfCall(wcall); ev != nil {
+		for _, ret := range returnsOf(fn) {
+			v, ns := errorOfReturn(ret)
+			if ns == isNil && !(wcall.Block() == ret.Block() || wcall.Block().Dominates(ret.Block())) {
+				continue
+			}
+			if v != nil && !(sameValue(v, ev) || sameValue(resolveLoad(v), ev)) && nilnessAt(ev, ret.Block()) != isNil && ns != nonNil {
+				errOK = false
+			}
+		}
+	} else {
+		errOK = false
+	}
+	if !dstOK {
+		details = append(details, "the single Write does not go to the writer parameter")
+	}
+	if !errOK {
+		details = append(details, "the error of the single Write is not what is returned")
+	}
+	c.check(okAll && dstOK && errOK, "writer/sequence", c.fpos(fn), "persistFooter assembles, big endian, "+strings.Join(v16WriterOrder, ", ")+" (u64 x5, u32 x3) in an empty buffer and writes it once to its writer; the CRC is computed over exactly the bytes before it",
+		"footer assembled as ["+strings.Join(got, ", ")+"]; "+strings.Join(details, "; "))
+	c.check(seeded, "writer/crc-seeded", c.fpos(fn), "the footer's CRC continues from the CRC of the body (crc32.Update seeded with the parameter)", "the footer CRC is not seeded with the body CRC")
+	return true
 }
